@@ -311,8 +311,15 @@ def weights_rule(ctx, R):
                         if c_.name != 'chain' or len(c_.args) != 2:
                             continue
                         a0, a1 = me.arg(c_, 0), me.arg(c_, 1)
-                        okc.append(a0.has_field('std_position_weight') and not a0.has_field('std_velocity_weight') and
-                                   a1.has_field('std_velocity_weight') and not a1.has_field('std_position_weight'))
+                        # (one half may still go through its helper, which is judged on its own below / above)
+                        hp_ = HH.kalman_helper(ctx.F, flt, 'std_position')
+                        hv_ = HH.kalman_helper(ctx.F, flt, 'std_velocity')
+
+                        def uses(x, field, helper):
+                            return x.has_field(field) or (helper is not None and any(
+                                y.kind == 'call' and y.name == helper.npath for y in x.walk()))
+                        okc.append(uses(a0, 'std_position_weight', hp_) and not uses(a0, 'std_velocity_weight', hv_) and
+                                   uses(a1, 'std_velocity_weight', hv_) and not uses(a1, 'std_position_weight', hp_))
                 if okc:
                     n += 1
                     ctx.check(all(okc), R, flt, '%s uses %s' % (h, w), 'inline: positions.chain(velocities)',
@@ -472,7 +479,9 @@ def angle_option_rule(ctx, R):
     """R07.7 — state -> box: the angle is absent exactly when the angle component equals 0 (the inverse of
     `angle.unwrap_or(0.0)` in box -> state); a sign test would report rotated boxes as axis aligned."""
     n = 0
-    bs = [b for b in ctx.F.get('utils::kalman::try_from') if b.d.get('impl_self', '').endswith('Universal2DBox')]
+    # the impl is found by what it implements (TryFrom<KalmanState<_>> for Universal2DBox), wherever its block lives
+    bs = [b for b in ctx.F.fn_bodies() if b.npath.rsplit('::', 1)[-1] == 'try_from' and
+          b.d.get('impl_self', '').endswith('Universal2DBox') and b.nargs == 1 and 'KalmanState' in b.locals[1]]
     if len(bs) != 1:
         ctx.fail(R, 'utils::kalman::try_from', 'ANCHOR-MISSING:TryFrom<KalmanState> for Universal2DBox',
                  'conversion from the filter state to a box not found')
